@@ -2133,7 +2133,7 @@ class Interp:
 
         loop_id = self.state.fresh("loop")
         entry = havoc_loop_head(self, node, loop_id)
-        self.log("while.enter", node, id=loop_id, entry=entry)
+        self.log("while.enter", node, id=loop_id, entry=entry, oid_mark=self.state.counters.get("oid", 0))
         try:
             const_true = isinstance(node.test, ast.Constant) and bool(node.test.value)
             if not const_true:
